@@ -53,6 +53,7 @@ LEVEL_TEXT = ("Every response byte of every generated connection is parsed by a 
               "framing alphabet are enumerated, longer / richer ones are sampled. Held on what was observed; not a proof for all apps.")
 LEVEL_NOTE = "trusted: vf/models/httpref.py (~250 lines), the kernel loopback, the case generator's own model of 'persistent' (HTTP/1.1 without close, HTTP/1.0 with keep-alive)"
 NSHARDS = {"quick": 8, "thorough": 16}
+PEAK_COUNTERS = ("max_rounds_used",)
 TIMEOUT_S = {"quick": 240, "thorough": 1500}
 BUDGET_S = {"quick": 30, "thorough": 420}
 REQUIRE = {"responses_judged": 500, "followed_response_self_delimiting_checks": 150, "eof_after_nonpersistent_checks": 100,
@@ -187,7 +188,7 @@ def cases(tier, seed, shard, nshards):
                     yield {"kind": "enum", "mode": mode, "cuts": [], "reqs": reqs}
                 i += 1
     rng = random.Random(f"{seed}:C18:{shard}")
-    n = (3200 if tier == "quick" else 64000) // nshards
+    n = (1600 if tier == "quick" else 36000) // nshards
     for c in range(n):
         nreq = rng.choice([1, 2, 2, 3, 3, 4, 5, 6])
         reqs = [gen_req(rng, f"R{shard}c{c}q{j}", last=(j == nreq - 1)) for j in range(nreq)]
@@ -279,7 +280,7 @@ def expected(req):
 
 
 # --------------------------------------------------------------------------- harness
-_state = {"ctr": 0}
+_state = {"ctr": 0, "nodelay": set()}
 
 
 def setup(ctx):
@@ -309,8 +310,12 @@ class Conn:
 
     def __init__(self, port):
         self.sock = socket.socket(socket.AF_INET, socket.SOCK_STREAM)
+        # the ephemeral port of this socket may fall into a harness port range: without SO_REUSEADDR its TIME_WAIT
+        # would make a later bind() of a server to that port fail for a minute
+        self.sock.setsockopt(socket.SOL_SOCKET, socket.SO_REUSEADDR, 1)
         self.sock.settimeout(5.0)
         self.sock.connect(("127.0.0.1", port))
+        self.sock.setsockopt(socket.IPPROTO_TCP, socket.TCP_NODELAY, 1)   # no Nagle: a round's bytes leave in that round
         self.sock.setblocking(False)
         self.rx = bytearray()
         self.eof = False
@@ -373,6 +378,7 @@ def run_case(case, ctx):
     script = {r["id"]: r for r in reqs}
     calls = []
     srv, port, tymist = open_server(ctx, make_app(script, calls))
+    _state["nodelay"].clear()
     conn = None
     try:
         conn = Conn(port)
@@ -394,6 +400,17 @@ def _service(ctx, srv, tymist, trace):
         ctx.violation(f"service-raised:{type(ex).__name__}", f"Server.service() raised {ex!r}", trace=trace)
         return False
     tymist.tick()
+    # hio leaves Nagle on; with the peer's delayed ACK a small second send() would sit in the kernel for ~40 ms of
+    # WALL time.  Rounds must not depend on that, so the harness switches Nagle off on the accepted sockets (kernel
+    # tuning only - no hio logic is changed).
+    for ix in srv.servant.ixes.values():
+        cs = getattr(ix, "cs", None)
+        if cs is not None and id(cs) not in _state["nodelay"]:
+            try:
+                cs.setsockopt(socket.IPPROTO_TCP, socket.TCP_NODELAY, 1)
+            except OSError:
+                pass
+            _state["nodelay"].add(id(cs))
     return True
 
 
@@ -432,7 +449,19 @@ def _drive_and_judge(case, ctx, srv, tymist, conn, reqs, calls):
     ctx.count("connections")
     ctx.count("mode_" + mode)
 
-    parsed = {"responses": [], "state": httpref.CLEAN}
+    stream = httpref.ResponseStream(methods)
+    parsed = stream.result()
+    fed = [0, False]
+
+    def pump():
+        nonlocal parsed
+        got = conn.pump()
+        if len(conn.rx) > fed[0] or (conn.eof and not fed[1]):
+            stream.feed(bytes(conn.rx[fed[0]:]), conn.eof)
+            fed[0], fed[1] = len(conn.rx), conn.eof
+            parsed = stream.result()
+        return got
+
     waited = 0          # rounds the serial sender has waited for the current gate
     done_rounds = 0
     rnd = 0
@@ -460,10 +489,9 @@ def _drive_and_judge(case, ctx, srv, tymist, conn, reqs, calls):
                 else:
                     frags[0][0] = data[sent:]
         alive = _service(ctx, srv, tymist, trace)
-        got = conn.pump()
+        got = pump()
         if got or conn.eof:
             trace.append(["rx", rnd, got, "eof" if conn.eof else ""])
-            parsed = httpref.parse_responses(conn.rx, conn.eof, methods)
         if not frags or conn.eof:
             if conn.eof or (parsed["state"] == httpref.CLEAN and len(parsed["responses"]) >= exp_n):
                 done_rounds += 1
@@ -482,14 +510,16 @@ def _drive_and_judge(case, ctx, srv, tymist, conn, reqs, calls):
             select.select([conn.sock], [], [], 0.002)
             if not _service(ctx, srv, tymist, trace):
                 return
-            got = conn.pump()
+            got = pump()
             if got or conn.eof:
                 trace.append(["rx+", got, "eof" if conn.eof else ""])
-                parsed = httpref.parse_responses(conn.rx, conn.eof, methods)
             if conn.eof:
                 break
         ctx.count("patience_phases")
-    parsed = httpref.parse_responses(conn.rx, conn.eof, methods)
+    full = httpref.parse_responses(conn.rx, conn.eof, methods)     # one-shot parse must agree with the incremental one
+    if (full["state"], len(full["responses"]), full["rest"]) != (parsed["state"], len(parsed["responses"]), parsed["rest"]):
+        raise RuntimeError(f"httpref incremental/one-shot disagreement: {full['state']}/{len(full['responses'])} vs "
+                           f"{parsed['state']}/{len(parsed['responses'])}")
     if frags and not conn.eof:
         raise RuntimeError(f"harness could not send all request bytes in {rnd} rounds")
 
@@ -563,8 +593,23 @@ def _drive_and_judge(case, ctx, srv, tymist, conn, reqs, calls):
             ctx.count("clamp_checks" if cl < len(produced) else "exact_length_checks")
         else:
             want_body = produced
-        if m.framing == "length" and len(m.body) > int(m.get("content-length")):
-            viol("body-exceeds-content-length", f"response #{k}")   # cannot happen with a strict parser; kept as a guard
+        # a body delimited only by EOF although the request was persistent: either the server closed right after it
+        # (delimited by close; the body equals the script) or it went on serving requests on this connection - then
+        # the response was unframed while the connection stayed open and the "body" swallowed what followed.
+        if (m.framing == "eof" and persistent(r) and m.body != want_body and m.body.startswith(want_body)
+                and len(calls) > k + 1):
+            viol(unframed_key(r, k),
+                 f"response #{k} (to {kind_of(r)}) has neither Content-Length nor Transfer-Encoding: chunked, the server kept "
+                 f"serving the connection (app called for {len(calls) - k - 1} later request(s)) and only the final close ends it: "
+                 f"{len(m.body) - len(want_body)} bytes of later responses are indistinguishable from its body")
+            return
+        # the chunked body ended before all pieces were out (or a stray last-chunk follows it) and the script passed an
+        # empty piece through the write() callable
+        if m.framing == "chunked" and empty_write_piece(r) and want_body.startswith(m.body) and m.body != want_body:
+            viol("chunked-body-terminated-early:empty-piece-through-write-callable",
+                 f"response #{k}: the app passed b'' to the write() callable; the chunked body on the wire ends after "
+                 f"{len(m.body)} of {len(want_body)} bytes (a 0-size chunk was emitted for the empty piece), the rest follows as garbage")
+            return
         if m.body != want_body:
             if cl is not None and m.body[:len(want_body)] == want_body and len(m.body) > len(want_body):
                 viol("body-exceeds-declared-content-length", f"response #{k}: declared {cl}, body on the wire has {len(m.body)} bytes")
@@ -588,6 +633,11 @@ def _drive_and_judge(case, ctx, srv, tymist, conn, reqs, calls):
     k = len(resps)
     st = parsed["state"]
     if st == httpref.ERROR:
+        if 0 < k <= n and resps[k - 1].framing == "chunked" and empty_write_piece(reqs[k - 1]):
+            viol("chunked-body-terminated-early:empty-piece-through-write-callable",
+                 f"response #{k - 1}: the app passed b'' to the write() callable; a 0-size chunk was emitted for it, so what the "
+                 f"server sent after it ({bytes(parsed['rest'][:30])!r}...) is not part of any response: {parsed['error']}")
+            return
         # over-production past a declared Content-Length shows up as garbage where the next status line should be
         if k > 0 and k <= n:
             code, reason, ehdrs, produced, cl = expected(reqs[k - 1])
@@ -635,8 +685,10 @@ def _drive_and_judge(case, ctx, srv, tymist, conn, reqs, calls):
                 ctx.count("closed_to_delimit_unframed_response")
                 ctx.sample({"case_kind": "closed-to-delimit", "info": info})
                 return
-            viol("closed-before-all-responses:" + (kind_of(reqs[j]) if j >= 0 else "no-response-at-all"),
-                 f"EOF after {k} responses, {exp_n} expected (request #{max(j, 0)} was persistent)")
+            viol("closed-without-response:unanswered-request-" + ("persistent" if persistent(reqs[k]) else "nonpersistent"),
+                 f"EOF after {k} complete response(s) but {exp_n} were due: request #{k} ({kind_of(reqs[k])}, "
+                 f"{len(reqs[k]['body'])} body bytes) was sent completely and never answered; every earlier request was persistent "
+                 f"and its response self-delimiting; app was called for {len(calls)} request(s)")
         else:
             viol("missing-response", f"only {k} of {exp_n} responses after {rnd} rounds and the connection is open")
         return
@@ -659,6 +711,11 @@ def _drive_and_judge(case, ctx, srv, tymist, conn, reqs, calls):
     if case["kind"] == "rand":
         ctx.sample({"case": {"mode": mode, "reqs": [[kind_of(r), r["app"]["style"], r["app"].get("cl")] for r in reqs]},
                     "observed": [m.brief() for m in resps][:3], "info": info})
+
+
+def empty_write_piece(req):
+    a = req["app"]
+    return a["style"] == "write" and any(p == "" for p in a["wpieces"])
 
 
 def underrun_or_last_underrun(reqs, k):
